@@ -102,7 +102,8 @@ func projRegistryUncached(c *Ctx) *projReg {
 			}
 		}
 		if len(r.names) > 0 {
-			sort.Slice(r.ctors, func(i, j int) bool { return c.P.Decl(r.ctors[i]).Pos() < c.P.Decl(r.ctors[j]).Pos() })
+			// by name: positions of different files are not ordered the same way in every run
+			sort.Slice(r.ctors, func(i, j int) bool { return c.P.FuncName(r.ctors[i]) < c.P.FuncName(r.ctors[j]) })
 			return r
 		}
 	}
@@ -144,6 +145,7 @@ func projRegistryUncached(c *Ctx) *projReg {
 			})
 		}
 	}
+	sort.Slice(r.ctors, func(i, j int) bool { return c.P.FuncName(r.ctors[i]) < c.P.FuncName(r.ctors[j]) })
 	return r
 }
 
